@@ -6,8 +6,10 @@ CONSTANTS
   PruneBeforeWrite = TRUE
   LooseBeforePacked = FALSE
   StaleSnapshot = FALSE
+  StaleShortcut = FALSE
 INVARIANT VisIsAbs
 INVARIANT CasSound
+INVARIANT ShortcutSound
 INVARIANT AddSound
 INVARIANT DelSound
 INVARIANT ReadSound
